@@ -1180,8 +1180,16 @@ func c19ClientRun(p c19Point, env *c19Env, run int) (*c19RunObs, []c19Viol, erro
 	sort.Strings(obs.Captured)
 	if runErr == nil {
 		// a run that installed everything must have let us capture every key it offered
+		certified := map[string]bool{}
+		for _, cr := range obs.Certs {
+			if cr.Status == 200 {
+				certified[c19PubID(cr.pub)] = true
+			}
+		}
 		for id, pub := range offered {
-			if !capturedIDs[id] {
+			// (a key whose optional certificate was refused is dropped by the
+			// client and never becomes observable; detector D2 still covers it)
+			if certified[id] && !capturedIDs[id] {
 				return nil, nil, fmt.Errorf("capture broken: the client offered a %s key but its private half was found neither in the agent nor under HOME", c19PubKind(pub))
 			}
 		}
@@ -1264,6 +1272,7 @@ func c19ClientRun(p c19Point, env *c19Env, run int) (*c19RunObs, []c19Viol, erro
 		}
 		var wg sync.WaitGroup
 		var mu sync.Mutex
+		var d2viols []c19Viol
 		next := 0
 		for w := 0; w < runtime.GOMAXPROCS(0); w++ {
 			wg.Add(1)
@@ -1283,7 +1292,7 @@ func c19ClientRun(p c19Point, env *c19Env, run int) (*c19RunObs, []c19Viol, erro
 					mu.Lock()
 					obs.Windows += n
 					if comp != "" {
-						viols = append(viols, c19Viol{Key: fmt.Sprintf("C19|leak|%s|%s", comp, whereClass(t.u.Where)),
+						d2viols = append(d2viols, c19Viol{Key: fmt.Sprintf("C19|leak|%s|%s", comp, whereClass(t.u.Where)),
 							What: fmt.Sprintf("a window of the bytes sent is the private %s of the %s public key the client offered: %s depth %d", comp, c19PubKind(t.pub), t.u.Where, t.u.Level)})
 					}
 					mu.Unlock()
@@ -1291,6 +1300,8 @@ func c19ClientRun(p c19Point, env *c19Env, run int) (*c19RunObs, []c19Viol, erro
 			}()
 		}
 		wg.Wait()
+		sort.Slice(d2viols, func(i, j int) bool { return d2viols[i].What < d2viols[j].What })
+		viols = append(viols, d2viols...)
 	}
 
 	// --- clause 2: private material only in files (and directories) closed to others
